@@ -87,6 +87,9 @@ def case_prog(prog, K=2, W=32):
 
 
 def run(chk):
+    from .. import runner as _runner
+
+    _runner.CASE_TIMEOUT_S = min(_runner.CASE_TIMEOUT_S, 30)  # a pass that does not terminate on an input is a rejected input
     quick = chk.tier == "quick"
     progs, n_exh = ac.program_set(chk.tier, chk.seed)
     K = 2 if quick else 3
